@@ -17,7 +17,7 @@ import itertools
 
 DEFAULT_FEAT = dict(
     subtypes=True, constants=True, neg=True, equality=True, numeric=True, when=True, forall_eff=True,
-    or_pre=False, forall_pre=False, bare_pre=False, nested_numeric=False,   # nested / quantified / unwrapped preconditions
+    or_pre=False, forall_pre=False, bare_pre=False, nested_numeric=False, nested_cond=False,   # nested / quantified / unwrapped preconditions
     cond_numeric=True,                       # numeric comparisons inside when/forall conditions
     child_first_types=False,                 # D10 finding profile
     repeated_call_objects=True, long_names=False,
@@ -239,12 +239,34 @@ def gen_simple_effects(t, D, scope, f, n):
 def gen_effects(t, D, params, f):
     effs = gen_simple_effects(t, D, params, f, t.draw(4))
     fc = f if f.get("cond_numeric", True) else dict(f, numeric=False)
+    fnn = dict(fc, numeric=False)  # inside nested conditions: no numeric comparisons (see gen_conj)
+
+    def cond(sc):
+        """the condition of a when: a conjunction of literals; with nested_cond also disjunctions (possibly as the
+        whole condition, written directly under 'when') and universally quantified conditions"""
+        c = [x for x in (gen_lit(t, D, sc, fc) for _ in range(1 + t.draw(2))) if x]
+        if not f.get("nested_cond"):
+            return c, False
+        k = t.draw(6)
+        if k < 2:
+            sub = [x for x in (gen_lit(t, D, sc, fnn) for _ in range(1 + t.draw(3))) if x]
+            if sub:
+                if k == 0:
+                    return [("or", sub)], True  # (when (or a b) ...)
+                c.append(("or", sub))
+        elif k == 2:
+            ty = t.pick(list(D["types"]))
+            sub = [x for x in (gen_lit(t, D, sc + [("?w", ty)], fnn) for _ in range(1 + t.draw(2))) if x]
+            if sub:
+                c.append(("forall", "?w", ty, ("and", sub)))
+        return c, False
+
     if f["when"]:
         for _ in range(t.draw(3)):
-            c = [x for x in (gen_lit(t, D, params, fc) for _ in range(1 + t.draw(2))) if x]
+            c, bare = cond(params)
             e = gen_simple_effects(t, D, params, f, 1 + t.draw(2))
             if c and e:
-                effs.append(("when", ("and", c), e))
+                effs.append(("when", ("and", c), e) + (("bare",) if bare else ()))
     if f["forall_eff"]:
         for _ in range(t.draw(2)):
             ty = t.pick(list(D["types"]))
@@ -252,10 +274,10 @@ def gen_effects(t, D, params, f):
             if f.get("shadowing", True) and params and t.chance(1, 6):
                 v = t.pick(params)[0]  # shadows a parameter: inside the forall the name denotes the quantified object
             sc = [(n, tt) for n, tt in params if n != v] + [(v, ty)]
-            c = [x for x in (gen_lit(t, D, sc, fc) for _ in range(1 + t.draw(2))) if x]
+            c, bare = cond(sc)
             e = gen_simple_effects(t, D, sc, f, 1 + t.draw(2))
             if c and e:
-                effs.append(("forall", v, ty, ("when", ("and", c), e)))
+                effs.append(("forall", v, ty, ("when", ("and", c), e) + (("bare",) if bare else ())))
     return effs
 
 
@@ -374,7 +396,8 @@ def r_e(e):
     if k == "num":
         return f"({e[1]} {r_expr(e[2])} {r_expr(e[3])})"
     if k == "when":
-        return f"(when {r_f(e[1])} (and " + " ".join(r_e(x) for x in e[2]) + "))"
+        c = r_f(e[1][1][0]) if len(e) > 3 and len(e[1][1]) == 1 else r_f(e[1])  # 'bare': no 'and' around the condition
+        return f"(when {c} (and " + " ".join(r_e(x) for x in e[2]) + "))"
     if k == "forall":
         return f"(forall ({e[1]} - {e[2]}) {r_e(e[3])})"
     raise ValueError(e)
